@@ -82,6 +82,8 @@ def _gen_bool(r, k, depth):
 
 def _pick_int(r, k):
     x = r.random()
+    if x < 0.04:
+        return r.random() < 0.5          # a bool is an int: schema.int(True) is declarable
     if x < 0.4:
         return r.randint(-20, 20)
     if x < 0.6:
